@@ -7,7 +7,7 @@
     203 trailers differ (Trailer())              204 trailers differ (grpc.Trailer target)
     206 headers differ (Header())                207 headers differ (grpc.Header target)
     208 Header() blocked after a message         209 handler saw different request metadata
-    210 second terminal result differs from the first
+    210 second terminal result differs from the first   211 success on a non-streaming response without handler OK
     301 tunnel ended without a tunnel-level cause
     401 call still pending after the tunnel ended  402 Done() not closed after the tunnel ended
     403 Err() not nil after clean close          404 Err() nil after failure
@@ -181,7 +181,7 @@ Definition status_matches (client : res) (handler : res) : bool :=
   | _, _ => false
   end.
 
-Definition mon_C02_rpc (tr : trace) (r : N) (md cmd : option mdt) (to : option Z) : list failure :=
+Definition mon_C02_rpc (tr : trace) (r : N) (sh : shape) (md cmd : option mdt) (to : option Z) : list failure :=
   let hs := handler_status r tr in
   let term := terminal r tr in
   let loc := local_cause r to tr in
@@ -197,6 +197,14 @@ Definition mon_C02_rpc (tr : trace) (r : N) (md cmd : option mdt) (to : option Z
    | Some (a, REof, _, _, _, _, _, _, _), None => fl 202 a (zr r) 0
    | _, _ => []
    end) ++
+  (* a non-streaming response: a successful receive is the caller's completion with OK, so the
+     handler must have returned OK (code 211) *)
+  (if server_streams sh then [] else
+     match filter (fun x => match x with (_, ROk, _, _, _, _, _, _, _) => true | _ => false end) (rets_of (Cr r) ORecv tr), hs with
+     | [], _ => []
+     | _ :: _, Some ROk => []
+     | (a, _, _, _, _, _, _, _, _) :: _, _ => fl 211 a (zr r) 0
+     end) ++
   (* every later terminal result repeats the first *)
   (match term with
    | Some (_, x, _, _, _, _, _, _, _) =>
@@ -227,7 +235,7 @@ Definition mon_C02_rpc (tr : trace) (r : N) (md cmd : option mdt) (to : option Z
      | _ => [] end) tr.
 
 Definition mon_C02 (tr : trace) : list failure :=
-  flat_map (fun x => match x with (r, _, _, md, cmd, to, _, _) => mon_C02_rpc tr r md cmd to end) (rpcs_of tr).
+  flat_map (fun x => match x with (r, _, sh, md, cmd, to, _, _) => mon_C02_rpc tr r sh md cmd to end) (rpcs_of tr).
 
 (* ---------- C03 / C04 ---------- *)
 Definition mon_C03 (tr : trace) : list failure :=
